@@ -41,18 +41,25 @@ MANIFEST = {
             "function of the sessions and the time alone (modelled; agrees with C16's model; logins refused while not ON); (13) the "
             "composite timing theorem for ALL integer durations (a duration <= 0 skips the transitional state within the request); "
             "(14) a session that survives a power cycle is inert while the node is not ON (every request but startup refused and "
-            "changing nothing, every login refused, every frame stopped at the interface; only the time-out sweep touches it). Tie: Gen/Power.lean (enum, defaults, "
-            "statement shape of the power methods, guarded statement lists of apply_timestep and pre_timestep, interface guards and "
+            "changing nothing, every login refused, every frame stopped at the interface; only the time-out sweep touches it); "
+            "(15) the power methods are tied BY MEANING: the bodies of Node.power_on / power_off / reset / the countdown blocks of "
+            "apply_timestep / _start_up_actions / _shut_down_actions are translated statement by statement (helper methods of Node inlined, "
+            "all()/any() over the interfaces with their short-circuit semantics) and proved, for every node, to compute exactly the model's "
+            "powerOn / powerOff / reset / tickDown∘tickUp / actions (node afterwards incl. every operating_state assignment, and the answer); "
+            "a rewrite that keeps the meaning re-proves, one that does not breaks the theorem and a counter-model search prints a node. "
+            "Tie: Gen/PowerProg.lean (the translated bodies) + Gen/Power.lean (enum, defaults, "
+            "guarded statement lists of apply_timestep and pre_timestep, interface guards and "
             "every enable/disable definition, validators, route tables per class, inventories of every class below Node and "
             "NetworkInterface, the power-relevant statements of constructors/loader/set-up, every power_on/power_off call site, "
             "software guards) + Gen/RequestSchema.lean (C05x's schematic request tree) + differential rig R-node: bounded-exhaustive "
             "and random request/tick/ping sequences on two hosts, on a six-class network, and with a node of EVERY instantiable class "
             "under test between peers; direct API calls, run-time duration changes, negative and huge durations; whole power cycles "
-            "from assorted software states; scenario dictionaries with every declared state through PrimaiteGame.from_config and "
+            "from assorted software states; whole power cycles for EVERY placement of the links on the ports of a switch / router / "
+            "firewall (and plugged / unplugged hosts and wireless routers), also after an interface was disabled by request; scenario dictionaries with every declared state through PrimaiteGame.from_config and "
             "setup_for_episode; user-session time-outs across power changes. Compared after every operation: the response, every "
             "operating_state assignment, the whole modelled state, and per tick which sub-component pre_timestep/apply_timestep calls "
             "the node made; implementation-side oracles for frames passing an interface of a non-ON node, enabled interfaces / "
-            "running software in the wrong state, accepted requests, moved software clocks, pings crossing a non-ON node.",
+            "running software in the wrong state, a plugged-in interface left down by the operation that returned the node to ON, accepted requests, moved software clocks, pings crossing a non-ON node.",
     "note": "C12-specific: the software layer is summarised (service/application state + restart/install countdown, two node-scan "
             "countdowns); what a running service does with a payload is C13, sessions are C16 (here only: their time-out ignores "
             "power). The legal-moves and timing theorems are about requests, as the property's quantifier is: the Python API and "
